@@ -67,6 +67,8 @@ pub struct Renderer {
     pub buf: Vec<u8>,
     /// (offset of a label's length octet, the name suffix starting there)
     known: Vec<(usize, MName)>,
+    /// offsets of pointers that lead (directly or through other such pointers) to a root label
+    root_pointers: Vec<usize>,
 }
 
 impl Renderer {
@@ -74,6 +76,7 @@ impl Renderer {
         Renderer {
             buf: Vec::new(),
             known: Vec::new(),
+            root_pointers: Vec::new(),
         }
     }
 
@@ -94,12 +97,27 @@ impl Renderer {
         }
         // a pointer to a bare root label (any zero octet written so far outside the header's count fields) after
         // all the labels: the longest possible first chunk for a name
+        // (a root name may be written that way too, and the target may itself be such a pointer: a chain)
+        if name.labels.is_empty() && comp % 5 == 2 && comp != 0xffff {
+            let mut targets: Vec<usize> = self.buf.iter().enumerate().filter(|(i, b)| **b == 0 && *i < 0x3fff && !(4..12).contains(i)).map(|(i, _)| i).collect();
+            targets.extend(self.root_pointers.iter().copied());
+            if !targets.is_empty() {
+                let t = targets[pick(comp, targets.len())];
+                self.root_pointers.push(self.buf.len());
+                self.buf.push(0xc0 | (t >> 8) as u8);
+                self.buf.push(t as u8);
+                return;
+            }
+        }
         let zeros: Vec<usize> = if comp % 5 == 2 && !name.labels.is_empty() {
             // (not the header's count fields: records appended or removed later change them)
-            self.buf.iter().enumerate().filter(|(i, b)| **b == 0 && *i < 0x3fff && !(4..12).contains(i)).map(|(i, _)| i).collect()
+            let mut z: Vec<usize> = self.buf.iter().enumerate().filter(|(i, b)| **b == 0 && *i < 0x3fff && !(4..12).contains(i)).map(|(i, _)| i).collect();
+            z.extend(self.root_pointers.iter().copied());
+            z
         } else {
             Vec::new()
         };
+        let ends_in_root_pointer = !zeros.is_empty();
         let choice = if !zeros.is_empty() {
             Some((name.labels.len(), zeros[pick(comp, zeros.len())]))
         } else if cands.is_empty() {
@@ -123,6 +141,9 @@ impl Renderer {
         }
         match choice {
             Some((_, off)) => {
+                if ends_in_root_pointer {
+                    self.root_pointers.push(self.buf.len());
+                }
                 self.buf.push(0xc0 | (off >> 8) as u8);
                 self.buf.push(off as u8);
             }
@@ -349,10 +370,19 @@ pub fn opt_rr() -> impl Strategy<Value = RrSpec> {
         prop_oneof![9 => Just(MName::root()), 1 => gen_name()],
         prop_oneof![Just(0u16), Just(511u16), Just(512u16), Just(1232u16), Just(4096u16), Just(65535u16), any::<u16>(), 513u16..1400, 513u16..1400],
         prop_oneof![6 => Just(0u32), 1 => Just(0x0000_8000u32), 1 => Just(0x0001_0000u32), 1 => Just(0x8000_0000u32), 1 => Just(0x8001_0000u32), 2 => any::<u32>()],
-        prop::collection::vec((any::<u16>(), prop::collection::vec(any::<u8>(), 0..6)), 0..3),
+        prop::collection::vec(
+            prop_oneof![
+                3 => (any::<u16>(), prop::collection::vec(any::<u8>(), 0..6)),
+                // registered option codes at their legal lengths: COOKIE (8, or 16-40 octets), NSID, client subnet, padding, extended error
+                2 => (Just(10u16), prop_oneof![Just(8usize), Just(16), Just(24), Just(40), Just(7), Just(41)]).prop_map(|(c, n)| (c, vec![0xc0; n])),
+                1 => (prop_oneof![Just(3u16), Just(8u16), Just(12u16), Just(15u16)], prop::collection::vec(any::<u8>(), 0..12)),
+            ],
+            0..3,
+        ),
         prop::option::weighted(0.08, prop::collection::vec(any::<u8>(), 1..4)),
+        comp_sel(),
     )
-        .prop_map(|(owner, size, ttl, options, junk)| {
+        .prop_map(|(owner, size, ttl, options, junk, owner_comp)| {
             let mut rd = Vec::new();
             for (code, data) in options {
                 rd.extend_from_slice(&code.to_be_bytes());
@@ -364,7 +394,7 @@ pub fn opt_rr() -> impl Strategy<Value = RrSpec> {
             }
             RrSpec {
                 owner,
-                owner_comp: 0,
+                owner_comp,
                 rtype: T_OPT,
                 class: size,
                 ttl,
